@@ -374,22 +374,30 @@ const LONG: Duration = Duration::from_secs(30);
 
 // ------------------------------------------------------------------ runner
 
-/// Wait until no `emit_otlp_worker` thread is left in this process (the `Otlp` handle does not expose its worker;
-/// the kernel truncates the thread name to 15 bytes).
+/// Number of threads of this process (`Threads:` of /proc/self/status — one atomic counter, unlike a scan of
+/// /proc/self/task, which can skip entries while other threads exit).
+fn thread_count() -> Option<usize> {
+    let s = std::fs::read_to_string("/proc/self/status").ok()?;
+    s.lines().find_map(|l| l.strip_prefix("Threads:")).and_then(|v| v.trim().parse().ok())
+}
+
+/// Threads that exist when no emitter is alive: this one and the collector's.
+fn baseline_threads() -> usize {
+    static B: OnceLock<usize> = OnceLock::new();
+    *B.get_or_init(|| {
+        let _ = collector();
+        thread_count().expect("/proc/self/status")
+    })
+}
+
+/// Wait until every `emit_otlp_worker` thread has ended (the `Otlp` handle does not expose its worker): the
+/// process is back to its baseline thread count. The worker runtimes are current-thread and connect to literal
+/// IP addresses, so they never start helper threads.
 fn wait_workers_gone(timeout: Duration) -> bool {
+    let base = baseline_threads();
     let deadline = std::time::Instant::now() + timeout;
     loop {
-        let mut alive = false;
-        if let Ok(dir) = std::fs::read_dir("/proc/self/task") {
-            for t in dir.flatten() {
-                if let Ok(name) = std::fs::read_to_string(t.path().join("comm")) {
-                    if name.trim_end() == "emit_otlp_worke" {
-                        alive = true;
-                    }
-                }
-            }
-        }
-        if !alive {
+        if thread_count().map(|n| n <= base).unwrap_or(false) {
             return true;
         }
         if std::time::Instant::now() >= deadline {
@@ -414,6 +422,7 @@ fn show_entry(r: &Recorded, fresh: bool) -> String {
 fn run_c12(line: &str) -> String {
     let Some(case) = Case::parse(line) else { return "bad-case".into() };
     let c = collector();
+    let _ = baseline_threads();
     // phase 1: park every live worker on a primer request
     set_hooks(usize::MAX, LONG);
     let mut scripts: HashMap<Signal, VecDeque<Resp>> = HashMap::new();
@@ -601,7 +610,7 @@ fn gen_resp(rng: &mut Rng, transport: Transport, tier: Tier) -> Resp {
             1 => Resp::Status(*rng.pick(&[300u16, 299, 204, 201])),
             2 => Resp::ResetBefore,
             3 => Resp::ResetAfter,
-            4 => Resp::Status(*rng.pick(&[500u16, 502])),
+            4 => Resp::AckBody,
             _ => Resp::Ack,
         },
         Transport::Grpc => match rng.below(8) {
